@@ -256,6 +256,25 @@ def _setup(m, st):
         # vertices on the common interface exist twice; input of remove_duplicate_nodes
         o = _other_operand(m, {'from_self': st['from_self']})
         return type(m)(np.hstack((m.p, o.p)), np.hstack((m.t, o.t + m.p.shape[1])))
+    if what == 'use':
+        # the mesh is USED before it is operated on: everything that is built lazily and cached on the object gets
+        # built (reference mapping, search tree of the element finder, facet / edge tables, DOF numbering ...).
+        # The same object goes on; failures of these warm-up calls are not the subject here.
+        import skfem
+        elem = {'line': 'ElementLineP1', 'tri': 'ElementTriP1', 'quad': 'ElementQuad1', 'tet': 'ElementTetP1',
+                'hex': 'ElementHex1', 'wedge': 'ElementWedge1'}.get(kind_of(m))
+        uses = [lambda: m.mapping(), lambda: m.element_finder(), lambda: m.f2t, lambda: m.boundary_facets(),
+                lambda: m.dofs, lambda: skfem.Basis(m, getattr(skfem, elem)()),
+                lambda: skfem.FacetBasis(m, getattr(skfem, elem)()), lambda: m.orientation(),
+                lambda: m.edges, lambda: m.boundary_nodes(),
+                lambda: m.facets_satisfying(lambda x: x[0] < 1e9, normal=np.eye(m.p.shape[0])[0]),
+                lambda: m.element_finder()(*m.p[:, m.t[:, 0]].mean(axis=1, keepdims=True))]
+        for u in uses:
+            try:
+                u()
+            except Exception:
+                pass
+        return m
     if what == 'retag':
         bnd = {name: np.array(f, dtype=np.int64) for name, f in st['bnd'].items()}
         sub = {name: np.array(f, dtype=np.int64) for name, f in st['sub'].items()}
@@ -273,6 +292,56 @@ def _setup(m, st):
 
 
 # ---------------------------------------------------------------- events
+
+LIB0 = {'ok': 0, 'cent': [], 'det': [], 'w': [], 'wx': [], 'find': [], 'facets': []}
+LIBMAXCELLS = 48
+
+
+def lib_observation(m, scale):
+    """the mesh seen THROUGH THE LIBRARY (spec/TraceC18.tla, Lib* clauses): images of the reference centroid under
+    mapping(), detDF there, Functional(1) / Functional(x_i) per cell on a Basis over the mesh, element_finder() at those
+    centroids, the facets table.  Floats are logged as Fx numbers; nothing is compared here."""
+    import skfem
+    kind = kind_of(m)
+    elem = {'line': 'ElementLineP1', 'tri': 'ElementTriP1', 'quad': 'ElementQuad1', 'tet': 'ElementTetP1',
+            'hex': 'ElementHex1', 'wedge': 'ElementWedge1'}.get(kind)
+    nt = m.t.shape[1]
+    if elem is None or not scale or nt > LIBMAXCELLS or NNODES[kind] * scale > 32767:
+        return dict(LIB0)
+    dim, d = m.p.shape[0], {'line': 1, 'tri': 2, 'quad': 2}.get(kind, 3)
+    if dim != d:
+        return dict(LIB0)
+    dfact = {1: 1, 2: 2, 3: 6}[d]
+    big = float(np.abs(m.p).max()) * scale + 1
+    out = dict(LIB0)
+    mp = m.mapping()
+    X = m.elem.refdom.p.mean(axis=1)[:, None]
+    cent = mp.F(X)[:, :, 0]
+    out['cent'] = [[fx(v) for v in col] for col in cent.T]
+    if kind in ('line', 'tri', 'tet', 'quad') and (2 if kind == 'quad' else 1) * scale ** d <= 32767:
+        out['det'] = [fx(v) for v in mp.detDF(X)[:, 0]]
+    try:
+        found = m.element_finder()(*cent)
+        out['find'] = [int(k) + 1 if 0 <= int(k) < nt else 0 for k in np.asarray(found).ravel()]
+    except Exception:                      # judged by LibFinder (0 is no cell)
+        out['find'] = [0] * nt
+    if dfact * scale ** d <= 32767 and dfact * big ** d < 2**30:
+        basis = skfem.Basis(m, getattr(skfem, elem)())
+        out['w'] = [fx(v) for v in skfem.Functional(lambda w: 1. + 0. * w.x[0]).elemental(basis)]
+        if kind in ('line', 'tri', 'tet') and dfact * (d + 1) * scale ** (d + 1) <= 32767 \
+                and dfact * (d + 1) * big ** (d + 1) < 2**30:
+            wx = [skfem.Functional(lambda w, i=i: w.x[i]).elemental(basis) for i in range(dim)]
+            out['wx'] = [[fx(wx[i][k]) for i in range(dim)] for k in range(nt)]
+    out['facets'] = [[int(v) + 1 for v in col] for col in m.facets.T]
+    flat = [v for row in out['cent'] for v in row] + out['det'] + out['w'] + [v for row in out['wx'] for v in row]
+    if any(v is None for v in flat):
+        return dict(LIB0)
+    out['ok'] = 1
+    return out
+
+
+NNODES = {'line': 2, 'tri': 3, 'quad': 4, 'tet': 4, 'hex': 8, 'wedge': 6}
+
 
 def _am(mesh, pts, kind=None):
     if kind is None and kind_of(mesh) != 'other':
@@ -329,7 +398,8 @@ def execute(rec):
     for it in raw:
         st = it['st']
         ev = {'a': 'Op', 'op': it['op'], 'err': it['err'], 'tags': {'op': it['op']}, 'pre': [], 'post': [],
-              'par': dict(NOPAR), 'ck_pre': [], 'ck_post': [], 'scale': int(scale or 0), 'self': 1, 'lat': int(lat or 0)}
+              'par': dict(NOPAR), 'ck_pre': [], 'ck_post': [], 'scale': int(scale or 0), 'self': 1, 'lat': int(lat or 0),
+              'lib': dict(LIB0)}
         events.append(ev)
         if it['err']:
             continue
@@ -357,6 +427,10 @@ def execute(rec):
             if par.get('self') == 2:
                 ev['ck_pre'].reverse()
                 ev['ck_post'].reverse()
+            if rec.get('lib') and it['op'] not in ('setup', 'refine', 'trace') and kind_of(posts[0]) != 'other':
+                obs, lerr = guarded(lambda: lib_observation(posts[0], scale), 60)
+                # ok = 2: the library raised when asked about its own result (judged by LibAnswers)
+                ev['lib'] = dict(LIB0, ok=2) if lerr else obs
         P = ev['par']
         for k in ('elements',):
             if k in par:
@@ -489,6 +563,12 @@ def _adjacent_other(m, rng, same_kind=True):
     if mode == 1 and dim > 1:
         shift[(ax + 1) % dim] += 1                        # touching along part of a side / at a corner
     p = p + shift[:, None]
+    if rng.random() < 0.3:
+        # the second operand stores points that none of its cells uses (one between used ones, one behind them)
+        far = p.max(axis=1) + 3
+        j = int(rng.integers(p.shape[1]))
+        p = np.hstack((p[:, :j], (far + 1)[:, None], p[:, j:], far[:, None]))
+        t = np.where(np.asarray(t) >= j, np.asarray(t) + 1, np.asarray(t))
     return _mesh_spec(k2, p, t)
 
 
@@ -638,10 +718,20 @@ def propose(m, rng, allow):
             k = int(rng.integers(1, min(nf, 6) + 1))
             st['sel'] = {'how': 'ids', 'f': [int(x) for x in rng.choice(nf, size=k, replace=False)]}
         return st
+    if op == 'setup_use':
+        return {'op': 'setup', 'what': 'use'}
     if op == 'setup_unused':
-        k = int(rng.integers(1, 3))
+        # points that no cell uses: behind the highest used vertex, between used ones, or both
+        k = int(rng.integers(1, 4))
         n = m.p.shape[1] + k
-        pos = sorted(int(x) for x in rng.choice(n, size=k, replace=False))
+        how = int(rng.integers(3))
+        if how == 0:
+            pos = list(range(n - k, n))
+        elif how == 1:
+            pos = sorted(int(x) for x in rng.choice(n, size=k, replace=False))
+        else:
+            pos = sorted({n - 1} | {int(x) for x in rng.choice(n - 1, size=k - 1, replace=False)})
+            k = len(pos)
         lo, _ = _bbox(m)
         pts = [[float(lo[i] - 1 - j) for i in range(dim)] for j in range(k)]
         return {'op': 'setup', 'what': 'inject_unused', 'pos': pos, 'pts': pts}
@@ -675,7 +765,7 @@ ALL_OPS = ['restrict', 'restrict', 'remove_elements', 'add', 'matmul', 'remove_u
            'mirrored', 'morphed', 'oriented', 'trace', 'refine', 'setup_retag', 'setup_function_tag']
 
 
-def compose(spec, rng, length, allow=ALL_OPS, first=None):
+def compose(spec, rng, length, allow=ALL_OPS, first=None, extras=True):
     """random composition: executes on the real code while drawing so that parameters fit the intermediate meshes."""
     steps = []
     seen = []
@@ -708,7 +798,15 @@ def compose(spec, rng, length, allow=ALL_OPS, first=None):
                         rt = propose(res[3], rng, ['setup_retag'])
                         if rt is not None:
                             pre.append(rt)
-            post = [{'op': 'remove_unused_nodes'}] if st['op'] == 'matmul' else []
+            # the parts returned by @ keep the common point array: sometimes the chain goes on with such a part as it is
+            post = [{'op': 'remove_unused_nodes'}] if (st['op'] == 'matmul' and rng.random() < 0.5) else []
+            if st['op'] not in ('setup', 'refine') and extras:
+                front = []
+                if rng.random() < 0.12 and m.p.shape[1] == len(np.unique(m.t)):
+                    front.append(propose(m, rng, ['setup_unused']))
+                if rng.random() < 0.35:
+                    front.append({'op': 'setup', 'what': 'use'})
+                pre = front + pre
             ok = True
             m2 = m
             new = []
@@ -849,6 +947,39 @@ def split_specs(tier, rng):
     return out
 
 
+def forced(spec, rng, setups, op):
+    """recipe [setup steps ..., op]: the setups ('setup_unused', 'setup_use') are drawn for the mesh as it is when their
+    turn comes, then the operation for the mesh they leave.  None if the operation does not apply / does not fit."""
+    steps, seen = [], []
+    with quiet():
+        m = make_mesh(spec)
+        for name in list(setups) + [op]:
+            st = None
+            for _ in range(8):
+                st = propose(m, rng, [name])
+                if st is not None:
+                    break
+            if st is None:
+                return None
+            follow = [{'op': 'remove_unused_nodes'}] if (st['op'] == 'matmul' and rng.random() < 0.5) else []
+            for s1 in [st] + follow:
+                res, err = guarded(lambda s1=s1, m=m: apply_step(m, s1), 60)
+                if err:
+                    return None
+                pres, posts, _, nxt = res
+                seen += pres + posts
+                if not _fits(seen) or any(x.t.shape[1] > MAXCELLS for x in posts):
+                    return None
+                steps.append(s1)
+                m = nxt
+    return {'driver': 'surgery', 'mesh': spec, 'steps': steps, 'lib': 1}
+
+
+ALPHABET = ['restrict', 'remove_elements', 'add', 'matmul', 'remove_unused_nodes', 'remove_duplicate_nodes',
+            'to_meshtri', 'to_meshtri_x', 'to_meshtet', 'extrude', 'scaled', 'translated', 'mirrored', 'morphed',
+            'oriented', 'trace', 'refine']
+
+
 def generate(tier, seed):
     rng = np.random.default_rng(seed + 18)
     thorough = tier == 'thorough'
@@ -877,8 +1008,9 @@ def generate(tier, seed):
         for op in singles:
             for rep in range(6 if thorough else 1):
                 spec = _tagged_spec(kind, p, t, rng)
-                r = compose(spec, rng, 1, allow=[op])
+                r = compose(spec, rng, 1, allow=[op], extras=False)
                 if r['steps']:
+                    r['lib'] = 1
                     r['family'] = 'single'
                     recs.append(r)
     # (3) random compositions interleaved with refinement
@@ -888,6 +1020,7 @@ def generate(tier, seed):
         spec = _tagged_spec(kind, p, t, rng, oriented=(j % 3 == 0))
         r = compose(spec, rng, int(rng.integers(2, 6)))
         if r['steps']:
+            r['lib'] = int(j % 2 == 0)
             r['family'] = 'composition'
             recs.append(r)
     # (6) extrusion: cross-sections x connected line meshes under arbitrary vertex numberings, both operand orders
@@ -903,6 +1036,27 @@ def generate(tier, seed):
             spec, other = other, spec
         recs.append({'driver': 'surgery', 'mesh': spec, 'steps': [{'op': 'extrude', 'other': other}],
                      'family': 'extrude'})
+    # (10) every operation of the alphabet on an operand that (a) has been USED before (mapping, bases, element finder,
+    # facet tables ... are cached on it), (b) stores points no cell uses (behind the highest used vertex, between used
+    # ones), (c) both; the result is also looked at through the library (Lib* clauses).  Refinement of a used mesh is a
+    # state change followed by an operation, so that its result is looked at as an operand.
+    variants = [['setup_use'], ['setup_unused'], ['setup_unused', 'setup_use']]
+    for n, (kind, p, t) in enumerate(specs):
+        for k, op in enumerate(ALPHABET):
+            vs = variants if thorough else [variants[(n + k) % 3]]
+            for setups in vs:
+                spec = _tagged_spec(kind, p, t, rng)
+                r = forced(spec, rng, setups, op)
+                if r is None:
+                    continue
+                if op == 'refine':
+                    with quiet():
+                        tail = compose(spec, rng, len(r['steps']) + 1, allow=['translated', 'scaled', 'restrict'],
+                                       first=list(r['steps']),
+                                       extras=False)
+                    r['steps'] = tail['steps']
+                r['family'] = 'used-or-stray'
+                recs.append(r)
     # (8) to_meshtri (both styles) / to_meshtet on bigger tagged meshes under many numberings
     for n, spec in enumerate(split_specs(tier, rng)):
         if spec['kind'] == 'quad':
